@@ -184,7 +184,10 @@ pub fn value_to_tokens(value: &ASN1Value) -> Result<String, GeneratorError> {
                     })
             })
             .map(|mut s| {
-                s.pop();
+                // remove the trailing separator, if any arc was written
+                if s.ends_with('.') {
+                    s.pop();
+                }
                 s + "\""
             }),
         ASN1Value::Time(_) => todo!(),
@@ -198,7 +201,10 @@ pub fn value_to_tokens(value: &ASN1Value) -> Result<String, GeneratorError> {
                 })
             })
             .map(|mut s| {
-                s.pop();
+                // remove the trailing separator, if any item was written
+                if s.ends_with(',') {
+                    s.pop();
+                }
                 s + "]"
             }),
         ASN1Value::LinkedNestedValue {
